@@ -150,6 +150,8 @@ func c09kauri(args []string) error {
 		}
 		timerFired := false
 		certified := false
+		var prevFrom []int
+		sentIDs := map[int]bool{}
 		collectC := collect
 		collect = func(line obj) {
 			certified = certified || len(qcs) > 0
@@ -171,6 +173,22 @@ func c09kauri(args []string) error {
 				ids = append(ids, others[p])
 			}
 			from := ids[0]
+			// a child may contribute more than once in a view (its own vote when its wait timer fires, its subtree's later):
+			// often the sender is one that has sent before, and the signers are ones not sent yet
+			if len(prevFrom) > 0 && rng.Intn(3) == 0 {
+				from = prevFrom[rng.Intn(len(prevFrom))]
+				var fresh []int
+				for _, id := range others {
+					if !sentIDs[id] {
+						fresh = append(fresh, id)
+					}
+				}
+				if len(fresh) > 0 && rng.Intn(4) > 0 {
+					rng.Shuffle(len(fresh), func(i, j int) { fresh[i], fresh[j] = fresh[j], fresh[i] })
+					ids = fresh[:1+rng.Intn(min(2, len(fresh)))]
+				}
+			}
+			prevFrom = append(prevFrom, from)
 			view := 1
 			valid := true
 			kind := []string{"good", "good", "good", "good", "wrongview", "invalid", "nil"}[rng.Intn(7)]
@@ -200,6 +218,11 @@ func c09kauri(args []string) error {
 				}()
 				x.Deliver(c)
 			}()
+			if kind == "good" {
+				for _, id := range ids {
+					sentIDs[id] = true
+				}
+			}
 			collect(obj{"op": "contrib", "from": from, "signers": ids, "valid": valid, "view": view, "kind": kind, "panic": pan})
 		}
 		for _, p := range nodes {
